@@ -69,8 +69,8 @@ COMPONENTS = {
     "stub": ["run_optimizer_for_country replaced by a seeded stub in the stubbed histories"],
 }
 TIERS = {
-    "quick": {"histories": 112, "real": 6, "budget_s": 50, "timeout": 240, "shrink_s": 60},
-    "thorough": {"histories": 2400, "real": 72, "budget_s": 520, "timeout": 300, "shrink_s": 120},
+    "quick": {"histories": 112, "real": 6, "budget_s": 50, "timeout": 240, "shrink_s": 60, "batch": 112},
+    "thorough": {"histories": 2400, "real": 72, "budget_s": 520, "timeout": 300, "shrink_s": 120, "batch": 400},
 }
 
 REL_TOL = 1e-9
@@ -518,7 +518,7 @@ def execute(spec):
                     probes["rejected_invalid_population"] = probes.get("rejected_invalid_population", 0) + 1
                 else:
                     aborts += 1
-                    key = "abort:" + (out.error or out.status).splitlines()[0][:80]
+                    key = "abort:" + (out.error or out.status)[:90]
                     probes[key] = probes.get(key, 0) + 1
                 continue
             n_run, vec = judge(call, out, mode, V, log, i)
